@@ -47,6 +47,10 @@ def post_order_lexicographic(top: str, ignore_pathspec: pathspec.PathSpec = None
                 logger.verbose(f"ignoring filepath {file_path}")
             continue
         path = join(top, name)
+        if os.path.islink(path) and not os.path.exists(path):
+            # a link whose target does not exist is neither a file nor a folder: there is nothing to hash
+            logger.verbose(f"skipping broken link {path}")
+            continue
         if isdir(path) and os.path.islink(path):
             # links to folders are not followed (see below), so there is nothing to record or to hash for them either
             logger.verbose(f"not following link to folder {path}")
